@@ -77,13 +77,18 @@ func (f *fAdapterTransport) Open() error {
 		}
 	}
 
-	go f.readLoop()
+	// Each Open gets its own close signal, captured by its read loop: a token
+	// left behind by a close the read loop itself initiated (peer EOF, read
+	// error) must not be seen by the next incarnation.
+	closeSignal := make(chan struct{}, 1)
+	f.closeSignal = closeSignal
+	go f.readLoop(closeSignal)
 	f.isOpen = true
 	f.closeChan = make(chan error, 1)
 	return nil
 }
 
-func (f *fAdapterTransport) readLoop() {
+func (f *fAdapterTransport) readLoop(closeSignal <-chan struct{}) {
 	defer verifYield("adapter.readloop.exit", 0)
 	framedTransport := NewTFramedTransport(f.transport)
 	for {
@@ -92,7 +97,7 @@ func (f *fAdapterTransport) readLoop() {
 			verifYield("adapter.readloop.onerror", 0)
 			// First check if the transport was closed.
 			select {
-			case <-f.closeSignal:
+			case <-closeSignal:
 				// Transport was closed.
 				return
 			default:
